@@ -246,6 +246,9 @@ def run(ctx):
     # R7: allOf / sibling applicators: a property present in both operands gets both constraints (shared with C07-R3)
     from . import c07 as _c07
     _c07.intersect_operands(ctx, "C06-R7")
+    # R8: memo tables of the grammar builders are keyed by the full argument (property names, definitions, literals)
+    from . import c09 as _c09
+    _c09.memo_keys_lossless(ctx, "C06-R8")
 
 
 def bounded_sequence_guard(ctx, R):
